@@ -204,7 +204,7 @@ def run_obligation(task):
     from engine.symutil import parse_verdict
     SOLVER.install()
     obl = task["obl"]
-    mod = importlib.import_module(task["module"])
+    mod = importlib.import_module(obl.get("module", task["module"]))
     body = getattr(mod, obl["body"])
     shard = obl.get("shard", {})
     types = obl["types"]
@@ -454,7 +454,7 @@ def load_known(prop):
 def write_replay(prop, module, obl, args, verdict):
     d = os.path.join(VERIF, "evidence", "replays")
     os.makedirs(d, exist_ok=True)
-    payload = {"property": prop, "module": module, "body": obl["body"],
+    payload = {"property": prop, "module": obl.get("module", module), "body": obl["body"],
                "obligation": obl["name"], "shard": obl.get("shard", {}), "args": args,
                "verdict": verdict}
     h = hashlib.sha1(json.dumps(payload, sort_keys=True, default=str).encode()).hexdigest()[:10]
